@@ -123,6 +123,7 @@ type Scn struct {
 	Remote     Remote // if set, litestream ops are forwarded to a worker process
 	RemoteDead bool   // the worker died (killed) during an op
 	DistinctMS bool
+	TickGapMS  int64 // minimum distance in ms between file-creating operations when DistinctMS is set
 	savedDB    []byte
 	savedWAL   []byte
 
